@@ -81,8 +81,6 @@ func (i *itemsValidator) Validate(index int, data interface{}) *Result {
 		}()
 	}
 
-	tpe := reflect.TypeOf(data)
-	kind := tpe.Kind()
 	var result *Result
 	if i.Options.recycleResult {
 		result = pools.poolOfResults.BorrowResult()
@@ -90,6 +88,13 @@ func (i *itemsValidator) Validate(index int, data interface{}) *Result {
 		result = new(Result)
 	}
 
+	if data == nil {
+		// a nil item is not validated (like a nil parameter or header value): there is no type to inspect
+		return result
+	}
+
+	tpe := reflect.TypeOf(data)
+	kind := tpe.Kind()
 	path := fmt.Sprintf("%s.%d", i.path, index)
 
 	for idx, validator := range i.validators {
